@@ -100,6 +100,7 @@ mutual
           (match kv.find? (·.1 == fd.key), fd.kind with
            | none, .opt => true
            | none, .optVec => true
+           | none, .vec => fd.dflt          -- a required Vec may be absent only with `#[serde(default)]`
            | none, _ => false
            | some (_, .null), .opt => !fd.skipIfNone
            | some (_, .null), .optVec => !fd.skipIfNone
